@@ -90,18 +90,51 @@ def split_json_docs(text):
     return out
 
 
+BODY = {'P': 'x == 1', 'F': 'x == 2 <<wrong x>>', 'S': 'when x == 2 { y == 2 }'}
+
+
+def hand_scenarios():
+    """shapes the generator rarely produces: a rule name defined several times with every combination of outcomes; failing
+    checks that live in a parameterised rule called from a named rule (directly, in a block, in an or-line, twice)"""
+    import itertools
+    out = []
+    doc = {'x': 1, 'y': 2, 'o': {'a': 5, 'b': 6, 'l': [1, 2, 3]}}
+    for n in (2, 3):
+        for combo in itertools.product('PFS', repeat=n):
+            rules = ''.join('rule a {\n  %s\n}\n' % BODY[c] for c in combo) + 'rule z {\n  y == 2\n}\n'
+            out.append((rules, doc))
+    chk = {1: 'rule chk(p) {\n  %p.a == 1 <<a is not 1>>\n}\n',
+           2: 'rule chk(p) {\n  %p.a == 1 <<a is not 1>>\n  %p.b == 2 <<b is not 2>>\n}\n',
+           3: 'rule chk(p) {\n  %p.a == 1\n  %p.b == 2 or %p.b == 3\n  %p.l[*] > 1\n}\n',
+           0: 'rule chk(p) {\n  %p.a == 5\n  %p.b == 6\n}\n'}
+    for k, c in chk.items():
+        out.append((c + 'rule r {\n  chk(o)\n}\n', doc))
+        out.append((c + 'rule r {\n  x == 1\n  chk(o) <<call failed>>\n}\n', doc))
+        out.append((c + 'rule r {\n  x == 2 or\n  chk(o)\n}\n', doc))
+        out.append((c + 'rule r {\n  o {\n    chk(this)\n  }\n}\n', doc))
+        out.append((c + 'rule r {\n  chk(o)\n  chk(o)\n}\nrule q {\n  r\n}\n', doc))
+        out.append((c + 'rule r when x == 1 {\n  chk(o)\n  o.l[*] < 3\n}\n', doc))
+    return out
+
+
 def run_cross(ctx, n, thorough):
     rng = random.Random(ctx.seed * 71 + 7)
     scen, jobs, meta = [], [], []
     ops = []
-    for k in range(n):
-        if rng.random() < 0.4:
-            doc = gen.gen_cfn(rng)
-            prog = gen.ProgGen(rng, doc, {'cycles': 0.0}).gen_file()
+    hand = hand_scenarios()
+    ctx.coverage['hand_scenarios'] = len(hand)
+    for k in range(n + len(hand)):
+        if k < len(hand):
+            rules, doc = hand[k]
+            data = json.dumps(doc, indent=1)
         else:
-            doc, prog = gen.gen_pair(rng, {'cycles': 0.0})
-        rules = gen.render_file(prog)
-        data = json.dumps(doc, indent=1)
+            if rng.random() < 0.4:
+                doc = gen.gen_cfn(rng)
+                prog = gen.ProgGen(rng, doc, {'cycles': 0.0, 'dup_names': 0.3, 'param_rate': 0.5}).gen_file()
+            else:
+                doc, prog = gen.gen_pair(rng, {'cycles': 0.0, 'dup_names': 0.3, 'param_rate': 0.5})
+            rules = gen.render_file(prog)
+            data = json.dumps(doc, indent=1)
         d = os.path.join(ctx.wd, 'x%d' % k)
         e2e.write_files(d, {'r.guard': rules, 'd.json': data})
         scen.append({'rules': rules, 'doc': doc})
@@ -246,7 +279,7 @@ def run_cross(ctx, n, thorough):
                     ctx.failing('JUnit marks the case %s, the file status is %s' % (mark, ref['status']), dict(info, mode='s-junit', xml=runs['s-junit'][1][:600].decode('utf-8', 'replace')), found=True)
         except ET.ParseError as e:
             ctx.failing('JUnit output is not well-formed XML: %s' % e, dict(info, mode='s-junit'), found=True)
-    ctx.coverage['cross_scenarios'] = n
+    ctx.coverage['cross_scenarios'] = n + len(hand)
     ctx.coverage['cross_compared'] = compared
     ctx.coverage['renderings_compared'] = views_total
     ctx.coverage['status_distribution'] = dist
@@ -280,12 +313,62 @@ def run_mixed(ctx):
                     {'class': 'mixed-parse-error-and-fail', 'codes': codes, 'rules': ['rule f { n == 12345 }', 'rule b { n == '], 'data': '{"n": 1}'}, found=True)
 
 
+def run_multi(ctx):
+    """several rules files that all parse, every combination of outcomes: the exit code is the same whichever way rules and data
+    are handed over and whichever output is chosen"""
+    import itertools
+    jobs, meta = [], []
+    data = '{"x": 1, "y": 2}'
+    k = 0
+    for n in (2, 3):
+        for combo in itertools.product('PFS', repeat=n):
+            d = os.path.join(ctx.wd, 'multi%d' % k); k += 1
+            texts = ['rule f%d {\n  %s\n}\n' % (i, BODY[c]) for i, c in enumerate(combo)]
+            files = {'r%d.guard' % i: t for i, t in enumerate(texts)}
+            files['d.json'] = data
+            e2e.write_files(d, files)
+            rargs = []
+            for i in range(n):
+                rargs += ['-r', 'r%d.guard' % i]
+            payload = json.dumps({'rules': texts, 'data': [data]}).encode()
+            confs = [('files', ['validate'] + rargs + ['-d', 'd.json'], None),
+                     ('files-v', ['validate'] + rargs + ['-d', 'd.json', '-v'], None),
+                     ('files-o-json', ['validate'] + rargs + ['-d', 'd.json', '-o', 'json'], None),
+                     ('files-s-json', ['validate'] + rargs + ['-d', 'd.json', '--structured', '-o', 'json', '-S', 'none'], None),
+                     ('files-s-junit', ['validate'] + rargs + ['-d', 'd.json', '--structured', '-o', 'junit', '-S', 'none'], None),
+                     ('stdin', ['validate'] + rargs, data.encode()),
+                     ('stdin-s-yaml', ['validate'] + rargs + ['--structured', '-o', 'yaml', '-S', 'none'], data.encode()),
+                     ('payload', ['validate', '--payload'], payload),
+                     ('payload-v', ['validate', '--payload', '-v'], payload),
+                     ('payload-o-yaml', ['validate', '--payload', '-o', 'yaml'], payload),
+                     ('payload-s-json', ['validate', '--payload', '--structured', '-o', 'json', '-S', 'none'], payload),
+                     ('payload-s-sarif', ['validate', '--payload', '--structured', '-o', 'sarif', '-S', 'none'], payload)]
+            for lab, args, stdin in confs:
+                j = {'args': args, 'cwd': d}
+                if stdin is not None:
+                    j['stdin'] = stdin
+                jobs.append(j); meta.append((''.join(combo), lab))
+    res = e2e.run_many(jobs)
+    by = {}
+    for (combo, lab), r in zip(meta, res):
+        by.setdefault(combo, {})[lab] = r[0]
+    for combo, codes in by.items():
+        want = 19 if 'F' in combo else 0
+        bad = {lab: c for lab, c in codes.items() if c != want}
+        if bad:
+            ctx.failing('rules files with outcomes %s: exit code %s expected in every mode, got %s' % (combo, want, bad),
+                        {'class': 'format-independence', 'combo': combo, 'codes': codes, 'bodies': BODY, 'data': data}, found=True)
+    ctx.coverage['multi_rules_scenarios'] = len(by)
+    ctx.coverage['evaluations'] += len(jobs)
+
+
 def run(ctx):
     ctx.build(cli=True)
     pr = ctx.proofs('C07')
     thorough = ctx.tier == 'thorough'
     n = run_cross(ctx, 300 if thorough else 36, thorough)
     run_mixed(ctx)
+    run_multi(ctx)
     ctx.coverage['distinct_nontrivial'] = n
     ctx.coverage['rule'] = ('scenario = generated rules file x document (JSON-compatible), run in 18 configurations (console summary with -S all/pass/fail/skip/none, '
                             '-v, -p, -o json, -o yaml, --structured json/yaml/sarif/junit, stdin, --payload) and through run_checks (verbose and not); distinct = '
